@@ -72,6 +72,7 @@ def check(run):
     with R.as_rule('C11.wireorder'):
         C06.wiring(R)        # the shared deflate context is configured as negotiated (reset flags / windows not crossed)
     single(R)
+    no_self_deadlock(R, 'C11.single')
     ctx(R)
     from . import C12 as _C12
     _C12.compression_writers(R, 'C11.onectx')
@@ -272,3 +273,51 @@ def _public_entries(R, f, depth=0):
                 if e not in out:
                     out.append(e)
     return out or [f]
+
+
+def no_self_deadlock(R, RID):
+    """The session lock is a plain (non re-entrant) threading.Lock: nothing called from inside one of its critical sections
+    may (transitively) enter a critical section of the same lock - the thread would wait for itself for ever."""
+    init = R.func(S + '.__init__')
+    rlock = any(isinstance(x, ast.Call) and U(x.func).endswith('RLock') for x in own_nodes(init.node))
+    takers = set()
+    for fq, fi in R.prog.funcs.items():
+        if fi.module.name.startswith('examples'):
+            continue
+        for x in own_nodes(fi.node):
+            if isinstance(x, ast.With) and any(U(it.context_expr).endswith('._lock') for it in x.items):
+                takers.add(fq)
+    n_sec = 0
+    for fq in sorted(takers):
+        fi = R.prog.funcs[fq]
+        if fi.cls is None:
+            continue
+        g = R.cfg(fq)
+        for n in g.live_nodes():
+            if not lock_frames(R, g, n):
+                continue
+            for c in n.calls:
+                n_sec += 1
+                seen, work, hit = set(), [(c, g.ctx, [U(c.func)])], None
+                while work and hit is None:
+                    c_, cx_, path = work.pop()
+                    for t in R.types.call_targets(c_, cx_):
+                        if t.kind != 'func' or t.func.qual in seen or len(path) > 5:
+                            continue
+                        seen.add(t.func.qual)
+                        if t.func.qual in takers:
+                            hit = path + [t.func.qual]
+                            break
+                        try:
+                            cx2 = R.types.ctx(t.func.qual, t.recv)
+                        except AnalysisError:
+                            continue
+                        for x in own_nodes(t.func.node):
+                            if isinstance(x, ast.Call):
+                                work.append((x, cx2, path + [t.func.qual]))
+                R.ob(RID, 'no call inside a critical section of %s re-enters the lock' % fq.split('.')[-1],
+                     hit is None or rlock,
+                     'inside `with self._lock` %s calls %s, which takes the same (non re-entrant) lock again: the thread '
+                     'blocks on itself - the send never returns and the event loop never yields its terminal event' % (
+                         fq, ' -> '.join(hit or [])), func=fi, node=c, construct='self-deadlock via %s' % U(c.func))
+    need(n_sec >= 2, 'no calls inside session lock sections found')
